@@ -145,28 +145,6 @@ structure VarWF (a : Slots) : Prop where
 def NoClash (T : List V) (x : Slots) : Prop :=
   ∀ j, inT names T j = true → (getSlot x j).isSome = true → inT names (hist names x) j = true
 
-/-- one iteration of `for type_ in composed` for an entry that does not raise -/
-def presStep (old : Slots) (acc : Slots) (t : V) : Slots :=
-  match t with
-  | .str s =>
-    match getSlot acc (key names s), getSlot old (key names s) with
-    | none, some x => setSlot acc (key names s) (some x)
-    | _, _ => acc
-  | _ => acc
-
-/-- the loop `for type_ in composed` when every entry is a string (no `TypeError`) -/
-def preservePure (old : Slots) (acc : Slots) (c : List V) : Slots :=
-  c.foldl (presStep names old) acc
-
-/-- `_update_context` (patched condition) on well-formed dictionaries, as a pure function:
-first argument the old `context.variable`, second the new variable context -/
-def UP (p b : Slots) : Slots :=
-  if hist names p = [] then b
-  else
-    let c := hist names p ++ hist names b
-    preservePure names (setSlot p (kCompose names) (some (.seq false c)))
-      (setSlot b (kCompose names) (some (.seq false c))) c
-
 variable {names}
 
 theorem inT_append (c d : List V) (j : Nat) : inT names (c ++ d) j = (inT names c j || inT names d j) := by
@@ -723,9 +701,6 @@ theorem setSlot_setSlot (l : Slots) (i : Nat) (v w : Option V) : setSlot (setSlo
     | zero => rfl
     | succ i => simp [setSlot, ih i]
 
-/-- the data of a chain: the getters applied in order -/
-def chainData (vars : List (Variable D)) (d : D) : D := vars.foldl (fun x v => v.getter x) d
-
 theorem composeGetter_eq (vars : List (Variable D)) : composeGetter vars = chainData vars := rfl
 
 /-- a chain applied to a value whose `context.variable` is a well-formed dictionary `p`: the getters are
@@ -1024,29 +999,6 @@ theorem ctxOf_call {D : Type} (names : List String) (fx : Bool) (v : Variable D)
   obtain ⟨d, c⟩ := dc
   simp only []
   cases updateContext names fx c v.varCtx <;> rfl
-
-/-- the dictionary `context.variable` the chain starts from: the value's own, or `{}` -/
-def preDict (names : List String) (cv : Option V) : Slots :=
-  match cv with
-  | some (.dict p) => p
-  | _ => emptyD names.length
-
-/-- a plain typed variable `Variable(name, f, type=ty, **kw)` -/
-structure Leaf (D : Type) where
-  name : V
-  f : D → D
-  ty : String
-  kw : Slots
-
-/-- `{"name": name, **kw}`: what the variable stores under its type -/
-def Leaf.attrs (names : List String) (l : Leaf D) : Slots :=
-  dictUpdate (setSlot (emptyD names.length) (kName names) (some l.name)) l.kw
-
-/-- its `var_context` -/
-def Leaf.ctx (names : List String) (l : Leaf D) : Slots :=
-  setSlot (setSlot (l.attrs names) (key names l.ty) (some (.dict (l.attrs names)))) (kType names) (some (.str l.ty))
-
-def Leaf.var (names : List String) (l : Leaf D) : Variable D := ⟨l.f, l.ctx names⟩
 
 theorem mkVariable_leaf (l : Leaf D) (hty : l.ty ≠ "") :
     mkVariable names l.name (.fn l.f) (.str l.ty) l.kw = .ok (l.var names) := by
